@@ -860,7 +860,7 @@ share("C14", ["C15.__getter", "C15.__setter", "C15.__setter_json", "C15.__delete
 share("C06", ["C17.jwt_new", "C17.jwt_free"])
 share("C13", ["C17.jwt_new", "C17.jwt_free"])
 share("C07", ["C16.jwks_new", "C16.jwks_item_add", "C08.openssl_process_rsa.complete", "C08.openssl_process_ec.complete", "C08.openssl_process_eddsa.complete"])
-share("C17", ["C16.__item_free", "C16.jwks_new"])
+share("C17", ["C16.__item_free", "C16.jwks_new", "C01.all.jwt_verify_sig", "C01.all._verify_sha_hmac", "C01.all.jwt_sign", "C01.jwt_verify_complete", "C07.jwks_process"])
 share("C09", ["C08.jwk_process_values"])
 share("C07", ["C08.jwk_process_values", "C08.jwk_key_op_j", "C08.process_octet", "C11.base64_decode", "C11.jwt_base64uri_decode", "C11.finite.reject"])
 share("C08", ["C11.base64_decode", "C11.jwt_base64uri_decode"])
